@@ -363,10 +363,10 @@ impl Scanner {
     fn skip_whitespace(&mut self) {
         loop {
             match self.ch {
-                ' ' | '\t' => {
+                ' ' | '\t' | '\r' => {
                     self.read_char();
                 }
-                '\n' | '\r' => {
+                '\n' => {
                     self.line += 1;
                     self.read_char();
                 }
